@@ -377,9 +377,10 @@ func (w *zzC08World) run(steps int, imported, _ bool) {
 		acctKey, err := zzImportedAccountKey(w.root)
 		zzMust(err)
 		zzMust(w.update(func(ns walletdb.ReadWriteBucket) error {
-			// with an address schema that differs from the scope's
+			// with an address schema that differs from the scope's and
+			// has different formats on its two branches
 			acct, err := w.sm().NewAccountWatchingOnly(ns, "somebody", acctKey, 0x11223344,
-				&ScopeAddrSchema{ExternalAddrType: NestedWitnessPubKey, InternalAddrType: NestedWitnessPubKey})
+				&ScopeAddrSchema{ExternalAddrType: NestedWitnessPubKey, InternalAddrType: WitnessPubKey})
 			if err != nil {
 				return err
 			}
